@@ -40,6 +40,7 @@ func main() {
 			fmt.Println(err)
 			os.Exit(2)
 		}
+		rules.DeclareAnchors(p)
 		for _, id := range rules.IDs() {
 			if !strings.HasPrefix(id, "C") {
 				continue
@@ -95,6 +96,7 @@ func main() {
 			}
 		}()
 		rules.Cur = p
+		p.PreResolveAnchors()
 		run(&rules.Ctx{P: p, R: rep, Tier: *tier, Only: *only, Verif: *verif})
 	}()
 	if len(p.Renamed) > 0 {
